@@ -449,16 +449,16 @@ func TestThresholdFromStart(t *testing.T) {
 				q.SetQuestion("q.c20.test.", dns.TypeA)
 				qCtx := query_context.NewContext(q)
 				start := time.Now()
-				var pAt time.Duration
+				var pAt atomic.Int64
 				go func() { time.Sleep(200 * time.Millisecond); close(s.gate) }()
 				go func() {
 					time.Sleep(time.Duration(500+10*i) * time.Millisecond)
-					pAt = time.Since(start)
+					pAt.Store(int64(time.Since(start)))
 					close(p.gate)
 				}()
 				e := fb.(sequence.Executable).Exec(context.Background(), qCtx)
 				time.Sleep(time.Until(start.Add(650 * time.Millisecond)))
-				o := out{err: e, pReleasedAfter: pAt}
+				o := out{err: e, pReleasedAfter: time.Duration(pAt.Load())}
 				if e == nil && qCtx.R() != nil {
 					o.got = qCtx.R().Answer[0].(*dns.TXT).Txt[0]
 				}
